@@ -295,8 +295,11 @@ def matches(entry, rec):
     return True
 
 
+REPLAY_SUBDIR = None
+
+
 def write_replay(pid, name, recs, note):
-    d = os.path.join(VERIF, "replays", pid)
+    d = os.path.join(VERIF, "replays", REPLAY_SUBDIR or pid)
     os.makedirs(d, exist_ok=True)
     path = os.path.join(d, name)
     with open(path, "w") as f:
@@ -323,6 +326,11 @@ def main():
     prop = PROPS.get(pid, {})
     t0 = time.time()
     work = os.path.join(VERIF, "work", pid)
+    if os.path.realpath(REPO) != "/repo":
+        # experiments against another checkout get their own work and replay directories
+        work += "_" + hashlib.sha1(os.path.realpath(REPO).encode()).hexdigest()[:8]
+    global REPLAY_SUBDIR
+    REPLAY_SUBDIR = os.path.basename(work)
     shutil.rmtree(work, ignore_errors=True)
     os.makedirs(work)
     if a.replay:
@@ -331,8 +339,12 @@ def main():
         keep = os.path.join(work, "replay_input.jsonl")
         shutil.copy(a.replay, keep)
         a.replay = keep
-    shutil.rmtree(os.path.join(VERIF, "replays", pid), ignore_errors=True)
+    shutil.rmtree(os.path.join(VERIF, "replays", os.path.basename(work)), ignore_errors=True)
     ev_path = os.path.join(VERIF, "evidence", pid + ".json")
+    if os.path.realpath(REPO) != "/repo":
+        # experiments against another checkout (tools/try_patch.sh) must not overwrite the evidence
+        # of the real tree
+        ev_path = os.path.join(work, "evidence_" + pid + ".json")
     os.makedirs(os.path.dirname(ev_path), exist_ok=True)
 
     broken = []      # names of theorems / correspondences that no longer check
